@@ -66,7 +66,7 @@ try:
 except Exception:
     sys.exit(0)
 what = {
-    "tapes": "3 OS threads share one interpreter tape (VM<255> and VM<3>): point, interval, float-slice, grad-slice evaluation, concurrent simplify + recycle, cancel token set/polled across threads; each thread compared with its solo results; plus a simplify storm (3 threads x 10 rounds, two alternating traces on one shared tape) and a mini storm (4 threads x 24 rounds on min(x,y), where nearly all time is spent entering and leaving simplify) whose every child is checked against the trace it was asked for; Miri data-race detector and aliasing model on",
+    "tapes": "3 OS threads share one interpreter tape (VM<255> and VM<3>): point, interval, float-slice, grad-slice evaluation, concurrent simplify + recycle, cancel token set/polled across threads; each thread compared with its solo results; plus a simplify storm (3 threads x 10 rounds, two alternating traces on one shared tape) and a mini storm (4 threads x 24 rounds on min(x,y), where nearly all time is spent entering and leaving simplify) whose every child is checked against the trace it was asked for; plus a shape-level first-use scenario (3 threads wrap a freshly built, never used function in Shape, build their own four shape tapes and evaluate them; solo reference from an independent instance); Miri data-race detector and aliasing model on",
     "rayon": "REAL rayon pools (2 and 3 threads, not the simulated executor) drive the real pixel::render, voxel::render and Octree::build on tiny workloads; results compared with the sequential path; a second thread sets the cancel token at a schedule-dependent instant (result must be None or the complete one); pre-cancelled run must be None",
 }
 out = {}
